@@ -376,6 +376,14 @@ class SeqGen:
             acks = acks + ["zz"]
         elif bad == 6:
             mods, secs = mods + ["zz"], secs + [10]
+        elif bad in (7, 8) and s and s.out:
+            # a VALID, outstanding ack id together with a malformed modify entry: nothing of it may be applied
+            acks = [str(r.choice(s.out)[0])]
+            mods, secs = mods + [r.choice(["zz", "", "-1"])], secs + [10]
+        elif bad == 9 and s and s.out:
+            # ... and the other way round: a valid modification with a malformed ack id
+            mods, secs = [str(r.choice(s.out)[0])], [r.choice([0, 30])]
+            acks = acks + ["zz"]
         else:
             broke = False
         if s and (broke or (acks and mods)):
